@@ -117,13 +117,17 @@ def run_impl(c):
     try:
         obj = cls_of(s)(np_x(c), np.array(floats(y)), n, **kwargs_of(c))
         xs, ys = obj.rfa()
+        # a result must not depend on earlier calls: ask the same object again
+        xs2, ys2 = obj.rfa()
+        same = (len(xs2) == len(xs) and len(ys2) == len(ys) and np.array_equal(np.asarray(xs2, dtype=float), np.asarray(xs, dtype=float))
+                and np.array_equal(np.asarray(ys2, dtype=float), np.asarray(ys, dtype=float), equal_nan=True))
     except Exception as e:  # noqa
         return {"err": err_kind(e)}
     out = {"type_x": type(xs).__name__, "type_y": type(ys).__name__,
            "ndim_x": int(np.ndim(xs)), "ndim_y": int(np.ndim(ys)),
            "xs": [float(v) for v in np.asarray(xs, dtype=float).ravel()],
            "ys": [float(v) for v in np.asarray(ys, dtype=float).ravel()],
-           "len_x": len(xs), "len_y": len(ys)}
+           "len_x": len(xs), "len_y": len(ys), "second_call_same": bool(same)}
     m = len(x)
     if s in WINDOW:
         out["a"] = int(obj.a)
@@ -229,6 +233,8 @@ def compare(c, io, mo, kinds):
     s = c["strategy"]
     m = len(x)
     relaxed = 0
+    if io.get("second_call_same") is False:
+        return "calling rfa() a second time on the same strategy object returns a different result"
     for kind, ans in zip(kinds, mo):
         if kind == "params":
             if "err" in io:
